@@ -220,6 +220,7 @@ class Model:
         raise ValueError(op)
 
 
+FORKS = False
 TRANSPORTS = ('copy', 'deepcopy', 'pickle0', 'pickle2', 'pickle5')
 
 
@@ -381,7 +382,14 @@ class C13(Check):
             case2['clock_type'] = xrng.choice(('bigint', 'bigint',
                                                'fraction'))
         fork_at = None
-        if xrng.random() < 0.08:
+        # 'fork' (a copy is taken and BOTH copies go on being used) is no
+        # longer generated: the statement's alphabet has no copy, and a tree
+        # that keeps its splits in a list - refactoring C13-ref-2, which
+        # keeps the property as stated - shares that list between a watch
+        # and its shallow copy.  A watch that TRAVELS (the copy replaces the
+        # original) stays; the executor still understands 'fork' so that
+        # old replay files run.
+        if FORKS and xrng.random() < 0.08:
             fork_at = xrng.randint(0, len(ops))
             ops.insert(fork_at, ['fork', xrng.choice(TRANSPORTS)])
             ops = ops[:fork_at + 1] + [
